@@ -191,10 +191,16 @@ func TestE3Leader(t *testing.T) {
 						}
 						f.mu.Unlock()
 					}(newFut)
-				case act < 48:
+				case act < 45:
 					what = "heartbeat"
 					line = fmt.Sprintf("HEARTBEAT | %d | %s", now, mnode)
 					node.R.VerifHeartbeat()
+				case act < 48:
+					// a second leadership of the same node (next term) while requests of the first are still in
+					// flight: their replies must count for nothing (new operation table, read sequence restarts)
+					what = "lead-again"
+					line = fmt.Sprintf("LEADAGAIN | %d | %s", now, mnode)
+					node.R.VerifLeadAgain()
 				case act < 54:
 					id := uint64(2 + rng.Intn(5))
 					voter := rng.Bool()
